@@ -113,6 +113,20 @@ CHECKS = {
                      "that ends up established or installs an SA accepted an AUTH that verifies under its configured "
                      "credential and identity over the peer's IKE_SA_INIT message as it saw it, its own nonce and "
                      "prf(SK_p, ID'), and what it saw means what the honest peer sent."),
+    'C15': dict(level='model_checking', technique="exhaustive enumeration of configurations, ACQUIRE flows and restart points "
+                "on real controllers over the model kernel", engine='world-explorer',
+                text="90 configurations (1-2 connections incl. two local addresses with one peer, 1-2 protect entries, "
+                     "IPv4/IPv6, ports, protocols, modes, ESP/AH, explicit and seam-chosen indexes): model SPD after "
+                     "start-up == exactly out/in/fwd per entry, SAD empty, both empty after close(); ACQUIRE for every "
+                     "outbound policy with flows at the corners of the entry, without / with an established IKE_SA / with "
+                     "a sibling connection's IKE_SA: right peer, IKE_SA re-used, entry's proposal / mode / selectors / "
+                     "lifetime installed; unknown index ignored; restart of either daemon after every step of a session."),
+    'C18': dict(level='exploration', technique=EX,
+                text="Responder with 0..threshold+3 half-open IKE_SAs (threshold measured, not assumed) x request variants: "
+                     "no cookie, exact cookie, every single-octet corruption, truncated / extended / empty, the exact cookie "
+                     "with another SPI / nonce / (configured) source address, cookie lists; COOKIE-only reply, zero "
+                     "DiffieHellman.from_group calls and unchanged table without the exact cookie. Initiator: COOKIE reply "
+                     "once / twice / after the real reply, retry byte-compared, session completes with mirror SAs."),
 }
 
 # filled in as checks are built; anything in ALL but not in CHECKS is listed under not_applicable
